@@ -364,7 +364,8 @@ class Path(object):
 
 
 class Explorer(object):
-    def __init__(self, name, run, timeout_ms=10000, max_paths=4000, max_steps=400, check_resources=False):
+    def __init__(self, name, run, timeout_ms=10000, max_paths=4000, max_steps=400, check_resources=False, budget_s=None):
+        self.budget_s = budget_s
         self.name = name
         self.run = run
         self.timeout_ms = timeout_ms
@@ -398,6 +399,10 @@ class Explorer(object):
             prefix = self.work.pop()
             if self.paths >= self.max_paths:
                 self.errors.append("path limit %d reached" % self.max_paths)
+                break
+            if self.budget_s is not None and time.time() - t0 > self.budget_s:
+                self.errors.append("time budget of %d s for this case used up after %d paths (%d prefixes left)"
+                                   % (self.budget_s, self.paths, len(self.work) + 1))
                 break
             p = Path(self, prefix)
             sym.set_cur(p)
